@@ -48,6 +48,10 @@ func body(c cfg) func() {
 		c.mode.Apply(&conf)
 		g := nbio.NewEngine(conf)
 		conn, peer := ekit.Stream(c.unix, c.k, 64)
+		if c.origin == "ondial" {
+			conn, peer = nil, nil // the connection comes from DialAsync
+			vsys.DialSndCap = c.k
+		}
 		var accepted []ekit.Block
 		var errs []string
 		nid := 0
@@ -102,6 +106,31 @@ func body(c cfg) func() {
 			return
 		}
 		switch c.origin {
+		case "ondial":
+			// the write is issued inside the dial callback (the fd is registered read+write then)
+			err := g.DialAsync("tcp", "127.0.0.1:80", func(cc *nbio.Conn, err error) {
+				if err != nil {
+					errs = append(errs, fmt.Sprintf("dial failed: %v", err))
+					return
+				}
+				conn = cc
+				write(c.k + 3)
+			})
+			if err != nil {
+				vsched.Fail("harness|DialAsync: %v", err)
+				return
+			}
+			ds := vsys.Dials()
+			if len(ds) != 1 {
+				vsched.Fail("harness|no pending dial")
+				return
+			}
+			peer = ds[0].Accept()
+			vsched.WaitIdle()
+			if conn == nil {
+				vsched.Fail("harness|dial callback did not run")
+				return
+			}
 		default:
 			if _, err := g.AddConn(conn); err != nil {
 				vsched.Fail("harness|AddConn: %v", err)
@@ -188,7 +217,10 @@ func build(tier string) []*vkit.Scenario {
 	for _, m := range ekit.Modes {
 		for _, unix := range []bool{false, true} {
 			for _, k := range ks {
-				for _, o := range []string{"onopen", "ondata", "after", "race", "two", "sendfile", "rw"} {
+				for _, o := range []string{"onopen", "ondata", "after", "race", "two", "sendfile", "rw", "ondial"} {
+					if o == "ondial" && unix {
+						continue
+					}
 					p, d := 3, 2
 					if thorough {
 						p, d = 4, 3
